@@ -160,23 +160,14 @@ def scan(prog):
 
 
 def obligations(prog):
-    table = load_table("cap_sites.json")
-    armed = set(table["armed"])
+    from core import armed_group_obligations
+    groups = load_table("cap_sites.json")["groups"]
     sites = scan(prog)
-    byid = {s["id"]: s for s in sites}
-    obs = []
-    for sid in sorted(armed):
-        s = byid.get(sid)
-        if s is None:
-            continue   # the construct changed shape; the instance floor decides whether too many vanished
-        ok = s["proved"] is True
-        det = s["detail"] if s["proved"] is not None else ("no longer provable: " + s["detail"])
-        obs.append(Obligation("R-CAP", sid, s["loc"], s["fn"], s["text"], ok, det))
-    unarmed = [s for s in sites if s["id"] not in armed]
-    st = {"sites_scanned": len(sites), "armed": len(armed), "armed_found": len(obs),
-          "not_armed_unprovable": len([s for s in unarmed if s["proved"] is None]),
-          "not_armed_new_proved": len([s for s in unarmed if s["proved"] is True]),
-          "not_armed_failing": [s["id"] + " @" + s["loc"] + ": " + s["detail"] for s in unarmed if s["proved"] is False][:20]}
+    obs = armed_group_obligations("R-CAP", sites, groups)
+    unproved = [s for s in sites if s["proved"] is not True]
+    st = {"sites_scanned": len(sites), "armed_groups": len(groups), "armed_sites": sum(groups.values()),
+          "sites_proved_now": len(sites) - len(unproved),
+          "not_provable_sites": [s["id"] + " @" + s["loc"] + ": " + s["detail"] for s in unproved][:40]}
     return obs, st
 
 
@@ -254,11 +245,14 @@ def _mentions(e, key):
 
 def wrap_obligations(prog):
     """Armed instances (tables/wrap_sites.json = the candidates that hold on the reviewed tree) of _wrap_scan."""
-    armed = set(load_table("wrap_sites.json")["armed"])
+    from core import armed_group_obligations
+    groups = load_table("wrap_sites.json")["groups"]
     allobs = _wrap_scan(prog)
-    obs = [o for o in allobs if o.oid in armed]
-    return obs, {"candidates": len(allobs), "armed": len(armed), "armed_found": len(obs),
-                 "not_armed": [o.oid + ": " + o.detail for o in allobs if o.oid not in armed]}
+    sites = [{"idbase": o.oid.rsplit("#", 1)[0], "fn": o.fn, "loc": o.loc, "text": o.text, "proved": bool(o.ok), "detail": o.detail, "props": o.props}
+             for o in allobs]
+    obs = armed_group_obligations("R-WRAP", sites, groups)
+    return obs, {"candidates": len(allobs), "armed_groups": len(groups),
+                 "not_provable": [o.oid + ": " + o.detail for o in allobs if not o.ok]}
 
 
 def _wrap_scan(prog):
@@ -298,7 +292,7 @@ def _wrap_scan(prog):
                 # provable by intervals alone?
                 res = Giv.binop(opn, g.ev(x[2], env), g.ev(x[3], env)) if op != "=" else g.ev(x[3], env)
                 cnt += 1
-                oid = "R-WRAP:%s:%s" % (fname, show(x).replace(" ", ""))
+                oid = "R-WRAP:%s:%s%s" % (fname, key, op if op != "=" else "=" + opn)
                 dup[oid] = dup.get(oid, 0) + 1
                 oid = "%s#%d" % (oid, dup[oid])
                 text = "`%s` must not wrap around 2^64: an overflow guard on its operands must dominate it and reject" % show(x)
@@ -363,13 +357,22 @@ if __name__ == "__main__":
     prog = program("K0")
     if len(sys.argv) > 1 and sys.argv[1] == "regen":
         sites = scan(prog)
-        armed = sorted(s["id"] for s in sites if s["proved"] is True)
-        json.dump({"_comment": "R-CAP instances proved by interval analysis on the reviewed tree (python3 rules/r_cap.py regen). An armed instance that stops proving is a violation.",
-                   "armed": armed}, open(os.path.join(VERIF, "tables", "cap_sites.json"), "w"), indent=0)
-        print("armed", len(armed), "of", len(sites))
+        groups = {}
+        for s in sites:
+            if s["proved"] is True:
+                groups[s["idbase"]] = groups.get(s["idbase"], 0) + 1
+        json.dump({"_comment": "R-CAP: per (function, kind, object) the number of sites proved by interval analysis on the reviewed tree "
+                               "(python3 rules/r_cap.py regen). A group with fewer proved sites is a violation.",
+                   "groups": dict(sorted(groups.items()))}, open(os.path.join(VERIF, "tables", "cap_sites.json"), "w"), indent=0)
+        print("armed", sum(groups.values()), "sites in", len(groups), "groups, of", len(sites), "sites")
         w = _wrap_scan(prog)
-        json.dump({"_comment": "R-WRAP instances that hold on the reviewed tree (python3 rules/r_cap.py regen).",
-                   "armed": sorted(o.oid for o in w if o.ok)}, open(os.path.join(VERIF, "tables", "wrap_sites.json"), "w"), indent=0)
+        wg = {}
+        for o in w:
+            if o.ok:
+                b = o.oid.rsplit("#", 1)[0]
+                wg[b] = wg.get(b, 0) + 1
+        json.dump({"_comment": "R-WRAP: per (function, statement) the number of instances that hold on the reviewed tree (python3 rules/r_cap.py regen).",
+                   "groups": dict(sorted(wg.items()))}, open(os.path.join(VERIF, "tables", "wrap_sites.json"), "w"), indent=0)
         for o in w:
             print("WRAP", "armed" if o.ok else "not-armed", o.oid, o.detail)
         return_ = None
